@@ -810,12 +810,12 @@ Proof.
   intros N H.
   destruct (path_eq_dec p PWsOff) as [->|Hp].
   - cbn [step_of]. destruct (s_resp (wso_step rt r)) as [q|] eqn:E.
-    + exists q. split; [reflexivity|]. now apply wso_id_query.
+    + exists q. split; [reflexivity|]. exact (wso_id_query rt r q E).
     + exfalso. exact (wso_resp_some rt r N E).
   - destruct H as [P|]; [|contradiction].
     rewrite (step_of_inline p rt r Hp), N.
     destruct (canon rt r) as [q|] eqn:CN.
-    + exists q. split; [reflexivity|]. now apply canon_id_query.
+    + exists q. split; [reflexivity|]. exact (canon_id_query rt r q CN).
     + exfalso. exact (canon_some rt r P CN).
 Qed.
 
@@ -849,7 +849,8 @@ Proof.
     + intros r _ N. apply notify_silent. unfold is_notify in N. now apply N.eqb_eq in N.
     + intros r Hin N. destruct (one_response p rt r N (H r Hin)) as (q & E & _). congruence.
   - intros r q Hin E. apply filter_In in Hin as [Hin N]. unfold non_notify in N. apply negb_true_iff in N.
-    destruct (one_response p rt r N (H r Hin)) as (q' & E' & I & Q). congruence.
+    destruct (one_response p rt r N (H r Hin)) as (q' & E' & I & Q).
+    assert (q' = q) by congruence. subst. now split.
 Qed.
 
 Lemma invoked_spec p rt r :
@@ -878,16 +879,18 @@ Proof.
   2:{ split; [intros [? ?]; discriminate|intros (? & ? & ? & _); discriminate]. }
   destruct (mw_refusal rt r) as [x|].
   { split; [intros [? ?]; discriminate|intros (? & ? & ? & ? & _); discriminate]. }
-  destruct (body_class h r).
-  2,3: split; [intros [? ?]; discriminate|intros (? & ? & E & ? & ? & _); injection E as <- <-; discriminate].
-  destruct (h_kind h) eqn:K;
-    try (split; [intros _; exists m, h; repeat split; discriminate|intros _; eexists; reflexivity]).
+  destruct (body_class h r) eqn:BC.
+  2,3: split; [intros [? ?]; discriminate|intros (m' & h' & E & _ & BC' & _); injection E as <- <-; congruence].
+  destruct (h_kind h) eqn:K.
+  1-8,10: split; [intros _; exists m, h; split; [reflexivity|split; [reflexivity|split; [exact BC|intros K'; congruence]]]
+                 |intros _; eexists; reflexivity].
   rewrite beqb_nil_r.
   destruct (q_body r) as [|x b]; cbn [negb andb].
   - split; [intros [? ?]; discriminate|]. intros (m' & h' & E & _ & _ & R). injection E as <- <-.
     destruct (R K) as [X _]. now contradiction X.
   - destruct (bmem (reg_pointer m (q_query r)) (h_fns h)) eqn:B.
-    + split; [|intros _; eexists; reflexivity]. intros _. exists m, h. repeat split; [discriminate|exact B].
+    + split; [|intros _; eexists; reflexivity]. intros _. exists m, h.
+      split; [reflexivity|split; [reflexivity|split; [exact BC|intros _; split; [discriminate|exact B]]]].
     + split; [intros [? ?]; discriminate|]. intros (m' & h' & E & _ & _ & R). injection E as <- <-.
       destruct (R K) as [_ X]. congruence.
 Qed.
@@ -979,28 +982,24 @@ Lemma error_code_table p rt r resp :
 Proof.
   intros N H E. pose proof (step_meets p rt r resp N H E) as M.
   apply resp_meets_fields in M as (_ & Mec & Mqf & Mbf & _ & Mb).
-  repeat split.
-  - rewrite Mec. unfold spec_expect. apply N.eqb_neq in H0. now rewrite H0.
-  - rewrite Mqf. unfold spec_expect. apply N.eqb_neq in H0. now rewrite H0.
-  - rewrite Mec. unfold spec_expect. apply N.eqb_eq in H0. rewrite H0. cbn [negb].
-    destruct H1 as [Q|U]; [apply N.eqb_neq in Q; now rewrite Q|rewrite U, orb_true_r; reflexivity].
-  - rewrite Mqf. unfold spec_expect. apply N.eqb_eq in H0. rewrite H0. cbn [negb].
-    destruct H1 as [Q|U]; [apply N.eqb_neq in Q; now rewrite Q|rewrite U, orb_true_r; reflexivity].
-  - rewrite Mec. unfold spec_expect. apply N.eqb_eq in H0, H1. now rewrite H0, H1, H2, H3.
-  - rewrite Mqf. unfold spec_expect. apply N.eqb_eq in H0, H1. now rewrite H0, H1, H2, H3.
-  - destruct (spec_expect_dispatched rt r m h H0) as [_ SE]. rewrite Mec, SE, H1. reflexivity.
-  - destruct (spec_expect_dispatched rt r m h H0) as [_ SE]. rewrite Mqf, SE, H1. reflexivity.
-  - destruct (spec_expect_dispatched rt r m h H0) as [_ SE]. rewrite Mec, SE, H1, H2. reflexivity.
-  - destruct (spec_expect_dispatched rt r m h H0) as [_ SE]. rewrite Mqf, SE, H1, H2. reflexivity.
-  - destruct (spec_expect_dispatched rt r m h H0) as [_ SE]. rewrite Mec, SE, H1, H2. reflexivity.
-  - destruct (spec_expect_dispatched rt r m h H0) as [_ SE]. rewrite Mqf, SE, H1, H2. reflexivity.
-  - destruct (spec_expect_dispatched rt r m h H0) as [_ SE]. rewrite Mec, SE, H1, H2, H3. reflexivity.
-  - destruct (spec_expect_dispatched rt r m h H0) as [_ SE]. rewrite Mqf, SE, H1, H2, H3. reflexivity.
-  - destruct (spec_expect_dispatched rt r m h H0) as [_ SE]. rewrite Mec, SE, H1, H2, H3. reflexivity.
-  - destruct (spec_expect_dispatched rt r m h H0) as [_ SE]. rewrite Mqf, SE, H1, H2, H3. reflexivity.
-  - destruct (spec_expect_dispatched rt r m h H0) as [_ SE]. rewrite Mbf, SE, H1, H2, H3. reflexivity.
-  - destruct (spec_expect_dispatched rt r m h H0) as [_ SE]. apply Mb. rewrite SE, H1, H2, H3. reflexivity.
-  - destruct (spec_expect_dispatched rt r m h H0) as [_ SE]. rewrite Mec, SE, H1, H2, H3. reflexivity.
+  split; [|split; [|split]].
+  - intros V. apply N.eqb_neq in V. rewrite Mec, Mqf. unfold spec_expect. rewrite V. split; reflexivity.
+  - intros V QU. apply N.eqb_eq in V. rewrite Mec, Mqf. unfold spec_expect. rewrite V. cbn [negb].
+    assert (X : negb (q_qfmt r =? 1) || negb (o_utf8 r) = true).
+    { destruct QU as [Q|U]; [apply N.eqb_neq in Q; now rewrite Q|rewrite U; apply orb_true_r]. }
+    rewrite X. split; reflexivity.
+  - intros V Q U G. apply N.eqb_eq in V, Q. rewrite Mec, Mqf. unfold spec_expect. rewrite V, Q, U, G. split; reflexivity.
+  - intros m h D. destruct (spec_expect_dispatched rt r m h D) as [_ SE].
+    rewrite SE in Mec, Mqf, Mbf, Mb. clear SE. split.
+    + intros c msg MW. rewrite MW in Mec, Mqf. split; [exact Mec|exact Mqf].
+    + intros MW. rewrite MW in Mec, Mqf, Mbf, Mb. split; [|split].
+      * intros BC. rewrite BC in Mec, Mqf. split; [exact Mec|exact Mqf].
+      * intros BC. rewrite BC in Mec, Mqf. split; [exact Mec|exact Mqf].
+      * intros BC. rewrite BC in Mec, Mqf, Mbf, Mb. split; [|split].
+        -- intros c msg U. rewrite U in Mec, Mqf. split; [exact Mec|exact Mqf].
+        -- intros bf b U. rewrite U in Mec, Mqf, Mbf, Mb.
+           split; [exact Mec|split; [exact Mqf|split; [exact Mbf|apply Mb; reflexivity]]].
+        -- intros U. rewrite U in Mec. exact Mec.
 Qed.
 
 (** the same request, the same frame, the same invocations on every path *)
